@@ -16,16 +16,16 @@ import (
 )
 
 type Ctx struct {
-	fset   *token.FileSet
-	files  map[string]*ast.File // by base name
-	consts map[string]string    // const name -> string value (string consts only)
-	funcs  map[string]*ast.FuncDecl // "Recv.Name" or "Name"
+	fset    *token.FileSet
+	files   map[string]*ast.File     // by base name
+	consts  map[string]string        // const name -> string value (string consts only)
+	funcs   map[string]*ast.FuncDecl // "Recv.Name" or "Name"
 	structs map[string]*ast.StructType
-	vars   map[string]ast.Expr // package-level var initialisers
-	src    map[string][]byte
-	repo   string
-	warn   []string
-	tags   []*TagInfo
+	vars    map[string]ast.Expr // package-level var initialisers
+	src     map[string][]byte
+	repo    string
+	warn    []string
+	tags    []*TagInfo
 }
 
 func (c *Ctx) warnf(f string, a ...any) { c.warn = append(c.warn, fmt.Sprintf(f, a...)) }
